@@ -282,3 +282,127 @@ def setdelay_sim_job(job):
         if "record" in r:
             out.append(trace.build_trace(f"{job['id']}/e{r['eps']}", cfg, r, init, eps=r["gs_eps"], epsrec=r["eps"]))
     return dict(traces=out)
+
+
+# ================================================================================================
+# C12  generated / augmented graphs
+# ================================================================================================
+def _graph_tables(g, e):
+    """base.Graph (batched) episode e -> verts/edges tables including padding rows."""
+    import numpy as onp
+
+    from ..probes import to_grid
+
+    verts, edges = {}, {}
+    for k, v in g.vertices.items():
+        seq, ts, te = onp.asarray(v.seq)[e], onp.asarray(v.ts_start)[e], onp.asarray(v.ts_end)[e]
+        verts[k] = [dict(seq=int(seq[j]), start=to_grid(ts[j]) if seq[j] >= 0 else -1, end=to_grid(te[j]) if seq[j] >= 0 else -1) for j in range(len(seq))]
+        # padding rows keep their raw times out of the comparison
+    for (a, b), ed in g.edges.items():
+        so, si, tr = onp.asarray(ed.seq_out)[e], onp.asarray(ed.seq_in)[e], onp.asarray(ed.ts_recv)[e]
+        edges[f"{a}>{b}"] = [{"out": int(so[j]), "in": int(si[j]), "recv": to_grid(tr[j]) if so[j] >= 0 else -1} for j in range(len(so))]
+    return verts, edges
+
+
+def gen_graph_job(job):
+    """generate_graphs / augment_graphs on a grid configuration -> RexGen traces."""
+    import jax
+    import networkx as nx
+    import numpy as onp
+
+    from rex import base
+    from rex.artificial import augment_graphs, generate_graphs
+    from rex.utils import to_networkx_graph
+
+    from .. import gen, trace
+    from ..probes import GRID
+
+    cfg = job["cfg"]
+    tcfg = trace.tla_cfg(cfg)
+    nodes = gen.build_nodes(cfg, log=False)
+    ts_max, E = job["ts_max"], job["num_episodes"]
+    g = generate_graphs(nodes, ts_max=ts_max / GRID, rng=jax.random.PRNGKey(job["seed"]), num_episodes=E)
+    out = dict(traces=[], checks=[])
+    for e in range(E):
+        verts, edges = _graph_tables(g, e)
+        out["traces"].append(dict(id=f"{job['id']}/gen/e{e}", cfg=tcfg, ts_max=ts_max, verts=verts, edges=edges,
+                                  generated_nodes=sorted(verts), generated_conns=sorted(edges)))
+        G = to_networkx_graph(jax.tree_util.tree_map(lambda x: x[e], g), nodes=nodes, validate=True)
+        out["checks"].append(dict(kind="acyclic", trace=f"{job['id']}/gen/e{e}", ok=bool(nx.is_directed_acyclic_graph(G))))
+    # augmentation: drop nodes / connections, let rex add them again
+    rng = random.Random(job["seed"])
+    names = [n["name"] for n in cfg["nodes"]]
+    for ai in range(job.get("n_aug", 2)):
+        drop_nodes = set(rng.sample(names, rng.choice([0, 1]))) if len(names) > 2 else set()
+        keep_v = {k: v for k, v in g.vertices.items() if k not in drop_nodes}
+        cand_e = [k for k in g.edges if k[0] not in drop_nodes and k[1] not in drop_nodes]
+        drop_e = set(rng.sample(cand_e, rng.randint(0 if drop_nodes else 1, max(1, len(cand_e) // 2)))) if cand_e else set()
+        keep_e = {k: v for k, v in g.edges.items() if k in cand_e and k not in drop_e}
+        if not keep_v:
+            continue
+        sub = base.Graph(vertices=keep_v, edges=keep_e)
+        aug = augment_graphs(sub, nodes, rng=jax.random.PRNGKey(job["seed"] + 17 + ai))
+        for e in range(E):
+            bv, be = _graph_tables(sub, e)
+            av, ae = _graph_tables(aug, e)
+            tsm = max([r["end"] for rows in bv.values() for r in rows if r["seq"] >= 0] + [0])
+            out["traces"].append(dict(id=f"{job['id']}/aug{ai}/e{e}", cfg=tcfg, ts_max=10 ** 6,  # no horizon is requested from augment_graphs
+ verts=av, edges=ae, before=dict(verts=bv, edges=be),
+                                      generated_nodes=sorted(set(av) - set(bv)), generated_conns=sorted(set(ae) - set(be))))
+            # bitwise: every array of the input reappears in the output
+            same = all(onp.array_equal(onp.asarray(getattr(aug.vertices[k], f)), onp.asarray(getattr(sub.vertices[k], f)))
+                       for k in sub.vertices for f in ("seq", "ts_start", "ts_end"))
+            same = same and all(onp.array_equal(onp.asarray(getattr(aug.edges[k], f)), onp.asarray(getattr(sub.edges[k], f)))
+                                for k in sub.edges for f in ("seq_out", "seq_in", "ts_recv"))
+            out["checks"].append(dict(kind="augment_bitwise", trace=f"{job['id']}/aug{ai}/e{e}", ok=bool(same)))
+    return out
+
+
+def c12(tier, seed):
+    from . import engine
+    from .asyncchecks import _graphs
+
+    rep = common.Report("C12", tier, seed)
+    quick = tier == "quick"
+    jobs = []
+    n = 10 if quick else 120
+    cfgs = _graphs(seed + 1200, n, allow_blocking=False, allow_buffer=False, allow_advance=False, allow_phase_sched=False, tie_every=3)
+    for i, cfg in enumerate(cfgs):
+        rng = random.Random(seed + i)
+        for nd in cfg["nodes"]:
+            nd["sched"] = "F"
+        jobs.append(dict(kind="pyfunc", module="harness.checks.smallchecks", func="gen_graph_job", id=f"c12g{i}", cfg=cfg, seed=seed * 10 + i,
+                         ts_max=rng.choice([32, 48, 64, 128, 256]), num_episodes=rng.choice([1, 2, 3, 4]), n_aug=2, timeout=900))
+    results = common.run_jobs(jobs)
+    items = []
+    for res in results:
+        if not res.get("ok"):
+            raise common.MachineryError(res.get("error", "")[-2500:])
+        for c in res["checks"]:
+            rep.cov["evaluations"] += 1
+            if not c["ok"]:
+                rep.violation(dict(kind=c["kind"]), dict(kind="gen_check", job={k: res["job"][k] for k in ("id", "cfg", "seed", "ts_max", "num_episodes")}, check=c),
+                              text=f"{c}")
+        items += [(res["job"], t) for t in res["traces"]]
+    vs, st = engine.validate_parallel([t for _, t in items], module="RexGen")
+    rep.add_tlc(st)
+    rep.cov["traces_validated_against_impl"] = len(items)
+    rep.cov["evaluations"] += len(items)
+    for (job, t), v in zip(items, vs):
+        nv = sum(1 for rows in t["verts"].values() for r in rows if r["seq"] >= 0)
+        ne = sum(1 for rows in t["edges"].values() for r in rows if r["out"] >= 0)
+        rep.sample(dict(trace=t["id"], ts_max=t["ts_max"], vertices=nv, messages=ne, augmented="before" in t, verdict=v["verdict"]))
+        if v["verdict"] == "accept":
+            if ne > 0:
+                rep.nontrivial(t["id"])
+            continue
+        sig = dict(clause=v["clause"])
+        rep.violation(sig, dict(kind="gen_trace", job={k: job[k] for k in ("id", "cfg", "seed", "ts_max", "num_episodes")}, trace_id=t["id"], verdict=v),
+                      text=f"{t['id']} rejected by RexGen clause {v['clause']}: {v['detail'][:600]}")
+    rep.cov["rule"] = ("seeded grid configurations (non-blocking, LATEST, FREQUENCY - what generate_graphs supports; multi-valued computation and communication "
+                       "delays incl. reordering jitter, skip, windows 1-3, horizons 0.5-4 s, 1-4 episodes); every episode of generate_graphs() and of "
+                       "augment_graphs() on a graph with nodes / connections removed is judged by RexGen: FirstStartIsPhase, SpacingAndNoOverlap, "
+                       "DurationIsSampledDelay, NothingEndsAfterHorizon, PaddingOnlyAsSuffix, RecvIsEndPlusSampledDelay (FIFO-clamped), "
+                       "AssignedToFirstStepAtOrAfterArrival, Augment* ; acyclicity through to_networkx_graph(validate=True). non-trivial = accepted graph with messages")
+    rep.assumptions += ["dyadic rates only (the generator adds 1/rate unrounded)"]
+    return rep.finish()
